@@ -77,6 +77,11 @@ pub fn text_space(r: &mut Run, name: &str, alpha: &[Sym], n: usize, gamma: &Gamm
             for w in widths(hi) {
                 let cfg = Cfg { width: w, ..*base };
                 check_wrap(text, &cfg, mask, cx);
+                if cfg.is_default() {
+                    // the same configuration through the other two entry points (options by value, bare width)
+                    check_wrap(text, &Cfg { entry: Entry::Owned, ..cfg }, mask, cx);
+                    check_wrap(text, &Cfg { entry: Entry::Usize, ..cfg }, mask, cx);
+                }
                 if base.crlf && text_lf.contains('\n') {
                     // the same text with *bare* LFs under the CRLF configuration: a bare LF is then an
                     // ordinary character inside a paragraph, not a paragraph break
@@ -102,7 +107,11 @@ pub fn word_seq_space(r: &mut Run, name: &str, mask: u32, algs: Vec<Alg>) -> Res
         cx.set_input(&text);
         for base in &bases {
             for w in 1..=9usize {
-                check_wrap(&text, &Cfg { width: w, ..*base }, mask, cx);
+                let cfg = Cfg { width: w, ..*base };
+                check_wrap(&text, &cfg, mask, cx);
+                if cfg.is_default() {
+                    check_wrap(&text, &Cfg { entry: Entry::Usize, ..cfg }, mask, cx);
+                }
             }
         }
     })
